@@ -63,3 +63,107 @@ Theorem C04_session_is_chain : forall U C n ds prfs a,
   P U C (S n) ds prfs a -> exists d c ps t, a = Authz d c ps /\ tok U d = Some t /\ window_ok C t.
 Proof. exact top_window. Qed.
 Print Assumptions C04_session_is_chain.
+
+(* ------------------------------------------------------------------ *)
+(* Link integrity (LinkIntegrity.v): the store U is no longer assumed to map a link to "the token
+   whose bytes hash to it" — it is DEFINED from the blocks that were supplied.  ustore_of gives a
+   block (c, b) the fields view_block b only when c is exactly the CIDv1 / dag-cbor / sha2-256 CID
+   of b (cid_of: what block.Decode re-computes in delegation.Data()), the empty token otherwise. *)
+From Ucanto Require Import Varint Cid MessageBytes TokenBytes TokenView ServerBytes LinkIntegrity.
+
+(* the fields of a link come from bytes that hash to it; bytes under any other CID have none *)
+Theorem C04_store_binds_bytes :
+  forall (mh_digest : N -> N -> bstr -> option bstr) keys valid alg_of blocks c t,
+    let view := view_block lid keys valid alg_of in
+    store_of mh_digest view blocks c = Some t ->
+    exists b, In (c, b) blocks /\ block_at blocks c = Some b /\ cid_of mh_digest b = Some c /\ view b = t.
+Proof. exact (fun mh_digest keys valid alg_of => store_binds_bytes mh_digest (view_block lid keys valid alg_of)). Qed.
+Print Assumptions C04_store_binds_bytes.
+
+Theorem C04_relabelled_contributes_nothing :
+  forall (mh_digest : N -> N -> bstr -> option bstr) keys valid alg_of blocks c' b,
+    let view := view_block lid keys valid alg_of in
+    cid_of mh_digest b <> Some c' ->
+    fields mh_digest view c' b = None /\ token_at mh_digest view c' b = empty_token /\
+    (forall c, store_of mh_digest view (blocks ++ [(c', b)]) c = store_of mh_digest view blocks c) /\
+    (forall c, c <> c' -> store_of mh_digest view ((c', b) :: blocks) c = store_of mh_digest view blocks c) /\
+    store_of mh_digest view ((c', b) :: blocks) c' = None.
+Proof. exact (fun mh_digest keys valid alg_of => relabelled_contributes_nothing mh_digest (view_block lid keys valid alg_of)). Qed.
+Print Assumptions C04_relabelled_contributes_nothing.
+
+(* the CIDs under which the same bytes pass a CAR reader — another codec (raw, dag-json), CIDv0,
+   another hash function — are not cid_of b *)
+Theorem C04_other_cids_unbound :
+  forall (mh_digest : N -> N -> bstr -> option bstr) b d,
+    mh_digest mh_sha2_256 32 b = Some d ->
+    (forall codec, codec < 2 ^ 63 -> codec <> dag_cbor_code ->
+       cid_of mh_digest b <> Some (cidv1 codec (mh_encode mh_sha2_256 d))) /\
+    cid_of mh_digest b <> Some (mh_encode mh_sha2_256 d) /\
+    (forall code d', code < 2 ^ 63 -> code <> mh_sha2_256 ->
+       cid_of mh_digest b <> Some (cidv1 dag_cbor_code (mh_encode code d'))).
+Proof. exact other_cids_unbound. Qed.
+Print Assumptions C04_other_cids_unbound.
+
+(* a link names ONE token, for a digest of 32 bytes without collisions (hypotheses of this
+   theorem only): two stores agree on every link both bind; bytes under another token's link
+   have no fields *)
+Theorem C04_store_deterministic :
+  forall (mh_digest : N -> N -> bstr -> option bstr) keys valid alg_of,
+    let view := view_block lid keys valid alg_of in
+    (forall a d, mh_digest mh_sha2_256 32 a = Some d -> length d = 32%nat) ->
+    (forall a b d, mh_digest mh_sha2_256 32 a = Some d -> mh_digest mh_sha2_256 32 b = Some d -> a = b) ->
+    (forall blocks1 blocks2 c t1 t2,
+       store_of mh_digest view blocks1 c = Some t1 -> store_of mh_digest view blocks2 c = Some t2 ->
+       t1 = t2 /\ exists b, block_at blocks1 c = Some b /\ block_at blocks2 c = Some b /\ cid_of mh_digest b = Some c) /\
+    (forall b b' c', cid_of mh_digest b' = Some c' -> b <> b' ->
+       fields mh_digest view c' b = None /\ token_at mh_digest view c' b = empty_token).
+Proof.
+  exact (fun mh_digest keys valid alg_of L CF =>
+           conj (store_deterministic mh_digest (view_block lid keys valid alg_of) L CF)
+                (foreign_link_no_fields mh_digest (view_block lid keys valid alg_of) L CF)).
+Qed.
+Print Assumptions C04_store_deterministic.
+
+(* C04 over the store of a set of blocks: an accepted non-key-issued token that contributes a
+   capability has its fields from bytes that hash to its link, and the attestation it was
+   accepted on is ucan/attest on the authority's DID with caveats exactly {proof: THAT link},
+   carried by a sibling other than the token itself whose fields again come from bytes hashing
+   to the sibling's link.  No other block of the list takes part. *)
+Theorem C04_attestation_names_bytes :
+  forall (mh_digest : N -> N -> bstr -> option bstr) keys valid alg_of blocks C,
+    let view := view_block lid keys valid alg_of in
+    (forall l p, resolve_proof C l = Some p -> d_link p = l) ->
+    forall n d sibs t c0,
+    let U := ustore_of mh_digest view blocks in
+    fst (validate U C (claim U C n) d sibs) = VOk -> tok U d = Some t ->
+    is_key_str (t_iss t) = false -> t_iss t <> v_did (authority C) ->
+    In c0 (t_caps t) ->
+    names_bytes mh_digest view blocks d t /\
+    ((exists da ca psa ta ca0,
+        P U C n (attest_desc (v_did (authority C)) (d_link d)) (session_candidates U d sibs) (Authz da ca psa) /\
+        In da sibs /\ d_link da <> d_link d /\
+        tok U da = Some ta /\ In ca0 (t_caps ta) /\
+        r_can ca0 = attest_can /\ r_with ca0 = did_str (v_did (authority C)) /\
+        r_nb ca0 = NbMap [(proof_key, VLink (d_link d))] /\
+        names_bytes mh_digest view blocks da ta)
+     \/
+     ((exists e, fst (claim U C n (attest_desc (v_did (authority C)) (d_link d)) (session_candidates U d sibs)) = AErr e
+                 /\ has_failed e = false) /\
+      exists kd v, resolve_did_key C (t_iss t) = Some kd /\ parse_principal C (did_str kd) = Some v /\
+        is_key_str (v_did v) = true /\ sig_ok t (mkVf (v_key v) (v_sigcode v) (t_iss t)))).
+Proof. exact (fun mh_digest keys valid alg_of => attestation_names_bytes mh_digest (view_block lid keys valid alg_of)). Qed.
+Print Assumptions C04_attestation_names_bytes.
+
+(* ... and no other bytes can stand for that link, in any block list (digest of 32 bytes without
+   collisions) *)
+Theorem C04_link_names_one_token :
+  forall (mh_digest : N -> N -> bstr -> option bstr) keys valid alg_of,
+    let view := view_block lid keys valid alg_of in
+    (forall a d, mh_digest mh_sha2_256 32 a = Some d -> length d = 32%nat) ->
+    (forall a b d, mh_digest mh_sha2_256 32 a = Some d -> mh_digest mh_sha2_256 32 b = Some d -> a = b) ->
+    forall blocks1 blocks2 d1 d2 t1 t2,
+      names_bytes mh_digest view blocks1 d1 t1 -> names_bytes mh_digest view blocks2 d2 t2 ->
+      d_link d1 = d_link d2 ->
+      t1 = t2 /\ exists c b, d_link d1 = lid c /\ block_at blocks1 c = Some b /\ block_at blocks2 c = Some b.
+Proof. exact (fun mh_digest keys valid alg_of => link_names_one_token mh_digest (view_block lid keys valid alg_of)). Qed.
+Print Assumptions C04_link_names_one_token.
